@@ -66,10 +66,50 @@ def directed_histories():
         H("file edited and reverted", [R({}), E(t2), E(t1), R({})]),
         H("file edited, run, reverted", [R({}), E(t2), R({}), E(t1), R({})]),
     ]
+    # local mode from nested directories (each has its own lazefile): the local cache is keyed by the start directory
+    nf = base_project()
+    nf["laze-project.yml"][0]["subdirs"] = ["apps"]
+    nf["apps/laze.yml"] = [{"apps": [{"name": "top", "sources": ["top.c"]}], "subdirs": ["a1", "a2"]}]
+    nf["apps/a1/laze.yml"] = [{"apps": [{"name": "inner1", "sources": ["i1.c"], "selects": ["lib"]}]}]
+    nf["apps/a2/laze.yml"] = [{"apps": [{"name": "inner2", "sources": ["i2.c"]}]}]
+    nvs = {k: [v] for k, v in nf.items()}; nt = {k: 1 for k in nf}
+    NH = lambda name, ops: (name, dict(versions=nvs, tree0=nt, ops=ops))
+    out += [NH("local mode: parent directory, then nested directory", [R({"local": "apps"}), R({"local": "apps/a1"})]),
+            NH("local mode: nested directory, then its parent", [R({"local": "apps/a1"}), R({"local": "apps"})]),
+            NH("local mode: sibling directories", [R({"local": "apps/a1"}), R({"local": "apps/a2"}), R({"local": "apps/a1"})]),
+            NH("local mode: root, then nested, then global", [R({"local": "."}), R({"local": "apps/a2"}), R({}), R({"local": "apps/a2"})]),
+            NH("local mode: nested directory with a builder selection after its parent", [R({"local": "apps"}), R({"local": "apps/a1", "builders": ["b1"]})])]
     for k in sorted(hist.FAULTS):
         out.append(H("killed at %s, then the old arguments" % hist.FAULTS[k], [R(b0), R({"builders": ["b1"]}, stop=k), R(b0)]))
         out.append(H("killed at %s, then the same arguments" % hist.FAULTS[k], [R(b0), R({"builders": ["b1"]}, stop=k), R({"builders": ["b1"]})]))
         out.append(H("edit, killed at %s, revert" % hist.FAULTS[k], [R({}), E(t2), R({}, stop=k), E(t1), R({})]))
+    return out
+
+def import_histories():
+    """`imports:` (local, with and without symlink) is not in the model: these histories are checked on the
+    implementation alone — the last run against the same run in an empty build directory, identical re-run hits"""
+    out = []
+    for symlink in (True, False):
+        f = base_project()
+        doc = json.loads(json.dumps(f["laze-project.yml"][0]))
+        doc["imports"] = [dict({"path": "vendor/libfoo", "name": "libfoo"}, **({"symlink": True} if symlink else {}))]
+        doc["apps"][0].setdefault("depends", []).append("libfoo")
+        lib1 = [{"modules": [{"name": "libfoo", "sources": ["foo.c"]}]}]
+        lib2 = [{"modules": [{"name": "libfoo", "sources": ["foo.c", "bar.c"], "env": {"global": {"CFLAGS": ["-DWITH_BAR"]}}}]}]
+        sub1 = [{"modules": [{"name": "libfoo_extra", "sources": ["x.c"]}]}]
+        lib3 = [{"modules": [{"name": "libfoo", "sources": ["foo.c"]}], "subdirs": ["extra"]}]
+        vs = {"laze-project.yml": [[doc]], "vendor/libfoo/laze.yml": [lib1, lib2, lib3], "vendor/libfoo/extra/laze.yml": [sub1]}
+        t1 = {"laze-project.yml": 1, "vendor/libfoo/laze.yml": 1}
+        t2 = {"laze-project.yml": 1, "vendor/libfoo/laze.yml": 2}
+        t3 = {"laze-project.yml": 1, "vendor/libfoo/laze.yml": 3, "vendor/libfoo/extra/laze.yml": 1}
+        R = lambda cli, stop=0: dict(op="run", cli=cli, stop=stop, sc={})
+        E = lambda t: dict(op="edit", tree=t)
+        kind = "symlinked" if symlink else "plain"
+        out += [("%s local import: imported file edited" % kind, dict(versions=vs, tree0=t1, ops=[R({}), E(t2), R({})])),
+                ("%s local import: imported file edited and reverted" % kind, dict(versions=vs, tree0=t1, ops=[R({}), E(t2), R({}), E(t1), R({})])),
+                ("%s local import: imported file gains a subdir" % kind, dict(versions=vs, tree0=t1, ops=[R({}), E(t3), R({})])),
+                ("%s local import: edit, killed run, narrower run" % kind, dict(versions=vs, tree0=t1, ops=[R({}), E(t2), R({}, 5), R({"builders": ["b0"]})])),
+                ("%s local import: unchanged" % kind, dict(versions=vs, tree0=t1, ops=[R({}), R({"builders": ["b1"]})]))]
     return out
 
 # ---------------------------------------------------------------- known findings: witnesses on the implementation
@@ -150,6 +190,24 @@ def run(rep, tier, seed, rng):
                           dict(data, model=[x["kind"] for x in m]), found_input=bool(pv))
         if any(x["kind"] == "H" for x in m) and any(x["kind"] in ("F", "K", "E") for x in m):
             nontriv.add(json.dumps(desc, sort_keys=True, default=str))
+    # `imports:` histories: the property on the implementation alone (not modelled)
+    imps = import_histories()
+    with ThreadPoolExecutor(core.NCPU) as ex:
+        ires = list(ex.map(lambda nh: hist.execute(laze, nh[1]), imps))
+    nimp = 0
+    for (nm, h), (root, steps, fresh) in zip(imps, ires):
+        pv = hist.property_check(h, steps, fresh)
+        runs = [s_ for s_ in steps if s_ is not None]
+        if any(s_["rc"] not in (0, -6) for s_ in runs):
+            pv.append("a run of the import history fails: rc=%s %s" % ([s_["rc"] for s_ in runs], runs[-1]["stderr"][-200:]))
+        # an edit directly before a complete run must not be served from the cache
+        for i, op in enumerate(h["ops"]):
+            if op["op"] == "run" and i > 0 and h["ops"][i - 1]["op"] == "edit" and steps[i]["cache_hit"] and h["ops"][i - 1]["tree"] != h["tree0"]:
+                pv.append("step %d is served from the cache although an imported build file changed" % i)
+        if pv:
+            nimp += 1
+            rep.violation("imports: " + nm + ": " + "; ".join(pv)[:500],
+                          dict(name=nm, full=h, impl=[None if s_ is None else dict(rc=s_["rc"], cache_hit=s_["cache_hit"], stderr=s_["stderr"][-200:]) for s_ in steps]), found_input=True)
     # cross-check extraction on a few histories inside Coq
     small = sorted([i for i in range(len(reqs)) if not tables[i]], key=lambda i: len(reqs[i]))[:6]      # (requests that needed no evalexpr answers)
     nvm, bad = core.vm_crosscheck([reqs[i] for i in small], [reps[i] for i in small], n=6)
@@ -169,11 +227,12 @@ def run(rep, tier, seed, rng):
                         "ninja argv, executed tasks, ninja file bytes, existence of the cache file. Property check on the implementation: the last run against the same run "
                         "after removing the build directory. non-trivial = a history with a cache hit and at least one failing/killed run or edit" % (len(named), n),
                    histories=len(hs), history_lengths=dict(lens), step_kinds=dict(kinds), model_rejects=rejected, disagreements=ndis,
-                   property_violations=nprop, final_hits_compared_with_fresh=hits_checked, vm_crosschecked=nvm, known_finding_witnesses=wit,
+                   property_violations=nprop, import_histories=len(imps), import_history_violations=nimp, final_hits_compared_with_fresh=hits_checked, vm_crosschecked=nvm, known_finding_witnesses=wit,
                    samples=[dict(history=[("run", proj.argv(o["cli"]), o.get("stop", 0)) if o["op"] == "run" else ("edit", o["tree"]) for o in hs[len(named)]["ops"]])])
     rep.assumptions += [
         "a file's (len, mtime) determines its content: the harness gives every version of a file its own mtime; an edit that keeps both is the open finding K08:same-len-same-mtime-edit",
         "load() and the stat of the loaded files are atomic w.r.t. edits in the model; in the code an edit between them makes the run write no cache (fix of K08:edit-between-parse-and-stat); the pause-hook witness is run on every check and must not reproduce",
+        "`imports:` entries (local with/without symlink; git and command imports need network/processes) are not in the model: %d directed import histories are checked on the implementation alone (last run vs. the same run in an empty build directory; an edited imported file must not be served from the cache)" % len(imps),
         "a kill is SIGABRT at one of seven fault points (hooks); kills inside a single write call are covered by: a truncated bincode cache does not deserialize (not modelled), a partly written ninja file is state NPartial",
         "the 64-bit hash of the -D environment is modelled as equality of the environments",
         "C08_hit_is_fresh: premises same build-dir/root/binary spelling, same -D list, no --partition, --apps narrowing in global mode only; the remaining cases are covered by the correspondence and the implementation-level property check only",
